@@ -117,7 +117,7 @@ func c06(tier string) {
 		pr := &pair{}
 		kind := r.Intn(16) // drawn per case: every worker (cases i = k mod 16) sees every kind
 		switch {
-		case kind%4 == 3 && len(fx.Profiles) > 0:
+		case kind%4 == 3 && len(fx.Profiles) > 0 && len(fx.Data) > 0:
 			pr.p, pr.d, pr.label = fx.Profiles[r.Intn(len(fx.Profiles))], fx.Data[r.Intn(len(fx.Data))], "fixture"
 		case kind == 2:
 			pr.p, pr.d, pr.label = c17GoodProfile, twoSourceInfos(), "two-source-infos"
